@@ -333,21 +333,39 @@ def eq_rule(prog, chk, pid):
 
 
 def naming_scenarios(prog, chk, pid, tier):
-    """create_from_prj_settings / create_from_dev_settings on EVERY subset of the 0x0620 naming values (constant-folded through
-    the repository code by the interpreter in concrete-control mode; nothing is executed)"""
+    """create_from_prj_settings / create_from_dev_settings on EVERY subset of the 0x0620 naming values: which keys are present and
+    how wide each value is are enumerated, the numeric values are symbolic byte strings; interpreted in concrete-control mode.
+    The result must be, as terms: each numeric field = big-endian integer of exactly its own naming value, mapped to None when it
+    equals the 'unknown' code 9999; device 0 when absent; the name-only form / the documented error as the property states."""
     import itertools
 
+    from bfsa.exprs import sbytes
     from rules import stackrt as R
 
     P = lambda s: "%s.%s" % (pid, s)
     stk = R.Stack(prog)
     CID = "bec2format.configid"
-    vals = {"customer": [(10234).to_bytes(2, "big"), (10234).to_bytes(4, "big"), (9999).to_bytes(2, "big")], "project": [(17).to_bytes(2, "big"), (0).to_bytes(1, "big")],
-            "device": [(6789).to_bytes(2, "big"), (0).to_bytes(2, "big")], "name": [b"Testname"], "version": [bytes([9]), (9).to_bytes(2, "big")]}
+    unknown = prog.fold(prog.module(CID), prog.module(CID).symbols["UNKNOWN"]) if False else 9999
     kinds = {
         "prj": ("create_from_prj_settings", {"customer": 0x01, "project": 0x05, "device": 0x02, "name": 0x06, "version": 0x07}, "MissingProjectSettingsNameError"),
         "dev": ("create_from_dev_settings", {"customer": 0x01, "device": 0x02, "name": 0x03, "version": 0x04}, "MissingDeviceSettingsNameError"),
     }
+    widths = {"customer": (2, 4), "project": (2, 1), "device": (2,), "version": (1, 2)}
+
+    def num(bs):
+        return mk("call", mk("builtin", "int.from_bytes"), (sbytes(bs), C("big")), (), 0)
+
+    def field_ok(got, bs):
+        """got == int(bs), or the same with the unknown code mapped to None"""
+        got = unsnap(got)
+        x = num(bs)
+        if got is x:
+            return True
+        if got.op == "phi" and unsnap(got.args[1]) is x and unsnap(got.args[2]) is NONE:
+            c = unsnap(got.args[0])
+            return c.op == "cmp" and c.args[0] == "NotEq" and {unsnap(c.args[1]).uid, unsnap(c.args[2]).uid} == {x.uid, C(unknown).uid}
+        return False
+
     for kind, (meth, keys, err) in kinds.items():
         fi = prog.method(CID + ".ConfigId", meth)
         bad = None
@@ -355,39 +373,44 @@ def naming_scenarios(prog, chk, pid, tier):
         fields = list(keys)
         for r in range(len(fields) + 1):
             for subset in itertools.combinations(fields, r):
-                choices = [vals[f] if tier == "thorough" or f == "customer" else vals[f][:1] for f in subset]
-                for combo in itertools.product(*choices):
+                wsets = [widths[f] if (tier == "thorough" or f == "customer") else widths[f][:1] for f in subset if f != "name"]
+                for wcombo in itertools.product(*wsets):
                     n += 1
-                    given = dict(zip(subset, combo))
-                    # a stray key of the other settings kind must not matter
-                    items = ", ".join("(0x620, 0x%02x): %r" % (keys[f], v) for f, v in given.items())
-                    src = "def drv():\n    c = ConfigId.%s({%s})\n    return (c.customer, c.project, c.device, c.version, c.name)\n" % (meth, items)
-                    ex, res = stk.run(CID, src, {})
-                    iv = lambda f: int.from_bytes(given[f], "big")
-                    unk = lambda v: None if v == 9999 else v
-                    # the reference, from the property statement
-                    if "version" not in given:
-                        want = ("raise", err)
+                    wmap = dict(zip([f for f in subset if f != "name"], wcombo))
+                    vals = {f: R.syms(f[:2], w) for f, w in wmap.items()}
+                    args = {f[:2]: sbytes(v) for f, v in vals.items()}
+                    items = ", ".join("(0x620, 0x%02x): %s" % (keys[f], "b'Testname'" if f == "name" else f[:2]) for f in subset)
+                    src = "def drv(%s):\n    c = ConfigId.%s({%s})\n    return (c.customer, c.project, c.device, c.version, c.name)\n" % (", ".join(sorted(args)), meth, items)
+                    ex, res = stk.run(CID, src, args)
+                    has = lambda f: f in subset
+                    if not has("version"):
+                        want = "raise"
                     else:
-                        complete = "customer" in given and (kind == "dev" or "project" in given)
-                        name = given["name"].decode() if "name" in given else None
-                        if complete:
-                            want = ("value", (unk(iv("customer")), unk(iv("project")) if kind == "prj" else 0, unk(iv("device")) if "device" in given else 0, iv("version"), name))
-                        elif name:
-                            want = ("value", (None, None, None, iv("version"), name))
+                        complete = has("customer") and (kind == "dev" or has("project"))
+                        want = "numeric" if complete else ("name-only" if has("name") else "raise")
+                    why = None
+                    if want == "raise":
+                        exc = str(ex._dead[1]).rsplit(".", 1)[-1] if (res.dead and ex._dead) else None
+                        if exc != err:
+                            why = "expected %s, got %s" % (err, exc if res.dead else "a value")
+                    elif res.dead or res.ret is None or unsnap(res.ret).op != "tuple":
+                        why = "raises %s" % (ex._dead[1] if ex._dead else "?")
+                    else:
+                        cu, pr, de, ve, na = unsnap(res.ret).args[0]
+                        okn = (is_const(na) and cval(na) == "Testname") if has("name") else unsnap(na) is NONE
+                        okv = unsnap(ve) is num(vals["version"])
+                        if want == "numeric":
+                            okc = field_ok(cu, vals["customer"])
+                            okp = field_ok(pr, vals["project"]) if kind == "prj" else (is_const(pr) and cval(pr) == 0)
+                            okd = field_ok(de, vals["device"]) if has("device") else (is_const(de) and cval(de) == 0)
                         else:
-                            want = ("raise", err)
-                    if res.dead:
-                        exc = str(ex._dead[1]) if ex._dead else "?"
-                        got = ("raise", exc.rsplit(".", 1)[-1])
-                    else:
-                        t = unsnap(res.ret)
-                        parts = t.args[0] if t.op == "tuple" else ([C(x) for x in cval(t)] if is_const(t) else None)
-                        got = ("value", tuple(cval(x) if is_const(x) else show(x, 3) for x in parts)) if parts is not None else ("value", show(t, 4))
-                    if got != want and bad is None:
-                        bad = (sorted(given), "gives %s, the property requires %s" % (got, want))
-        chk.require(bad is None, P("naming-subsets"), fi.qualname, "%d configurations: every subset of {%s}, several byte widths, the 'unknown' customer code" % (n, ", ".join(fields)), "%s:%d" % (fi.file, fi.lineno),
-                    "for every subset of naming values the identifier denotes exactly the given values (device defaults to 0), falls back to the name-only form when customer%s is missing, and raises %s when the version or a required name is missing" % ("/project" if kind == "prj" else "", err),
+                            okc, okp, okd = (unsnap(cu) is NONE, unsnap(pr) is NONE, unsnap(de) is NONE)
+                        if not (okn and okv and okc and okp and okd):
+                            why = "%s form expected; fields (customer, project, device, version, name) correct: %s; got %s" % (want, (okc, okp, okd, okv, okn), [show(x, 4)[:50] for x in (cu, pr, de, ve, na)])
+                    if why and bad is None:
+                        bad = (sorted(subset), why)
+        chk.require(bad is None, P("naming-subsets"), fi.qualname, "%d configurations: every subset of {%s}, several byte widths, symbolic values" % (n, ", ".join(fields)), "%s:%d" % (fi.file, fi.lineno),
+                    "for every subset of naming values the identifier denotes exactly the given values (each field the integer of its own naming value, 9999 mapped to None, device 0 when absent), falls back to the name-only form when customer%s is missing, and raises %s when the version or a required name is missing" % ("/project" if kind == "prj" else "", err),
                     "naming values %s: %s" % bad if bad else "")
 
 
